@@ -546,9 +546,49 @@ fn static_smile(r: &mut Report) {
     smile_case("list<uuid>", &vec![conjure_object::Uuid::from_u128(7)], r);
 }
 
+mod holders {
+    use conjure_object::Any;
+    use serde::{Deserialize, Serialize};
+    use std::collections::BTreeMap;
+    /// static types with `any`-typed parts (what Conjure generates for `any` fields)
+    #[derive(Serialize, Deserialize, PartialEq, Debug, Clone)]
+    pub struct AnyHolder {
+        pub any: Any,
+        pub items: BTreeMap<String, Any>,
+        pub maybe: Option<Vec<Any>>,
+    }
+}
+
+/// value -> Any -> value where the value itself carries dynamic parts built from typed data
+/// (maps with non-string keys, 128-bit integers, binary, nested options)
+fn static_nested_any(r: &mut Report) {
+    use conjure_object::DoubleKey;
+    use std::collections::{BTreeMap, BTreeSet};
+    let parts: Vec<(&'static str, Any)> = vec![
+        ("map<i32,_>", Any::new(&[(1i32, "a"), (-2, "b")].into_iter().collect::<BTreeMap<_, _>>()).unwrap()),
+        ("map<bool,_>", Any::new(&[(true, 1u8), (false, 2)].into_iter().collect::<BTreeMap<_, _>>()).unwrap()),
+        ("map<f64,_>", Any::new(&[(DoubleKey(1.5), 1), (DoubleKey(f64::NAN), 2)].into_iter().collect::<BTreeMap<_, _>>()).unwrap()),
+        ("map<u128,_>", Any::new(&[(u128::MAX, vec![1u64]), (0u128, vec![])].into_iter().collect::<BTreeMap<_, _>>()).unwrap()),
+        ("map<string,map<i64,_>>", Any::new(&[("k".to_string(), [(i64::MIN, 0.5f64)].into_iter().collect::<BTreeMap<_, _>>())].into_iter().collect::<BTreeMap<_, _>>()).unwrap()),
+        ("set<i32>", Any::new(&[3i32, 1, 2].into_iter().collect::<BTreeSet<_>>()).unwrap()),
+        ("binary", Any::new(&conjure_object::Bytes::from(vec![0xf8u8, 0xff, 0x00])).unwrap()),
+        ("i128", Any::new(&i128::MIN).unwrap()),
+        ("optional<none>", Any::new(&None::<i32>).unwrap()),
+        ("f32", Any::new(&f32::NAN).unwrap()),
+        ("string", Any::new("text").unwrap()),
+    ];
+    for (name, part) in &parts {
+        let h = holders::AnyHolder { any: part.clone(), items: [("x".to_string(), part.clone()), ("y".to_string(), Any::new(&7i8).unwrap())].into_iter().collect(), maybe: Some(vec![part.clone(), part.clone()]) };
+        buffered_case(Box::leak(format!("holder-of-any:{}", name).into_boxed_str()), &h, r);
+        buffered_case(Box::leak(format!("any:{}", name).into_boxed_str()), part, r);
+        buffered_case(Box::leak(format!("list<any>:{}", name).into_boxed_str()), &vec![part.clone()], r);
+    }
+}
+
 fn static_keys(r: &mut Report) {
     static_buffered(r);
     static_smile(r);
+    static_nested_any(r);
     use conjure_object::DoubleKey;
     use keys::*;
     key_case("newtype(u32)", vec![KU32(0), KU32(1), KU32(u32::MAX)], r);
